@@ -32,8 +32,8 @@ def parseOp (s : String) : Option Op :=
   | ["ladall"] => some .loadAndDeleteAll
   | ["copy"] => some .copyData
   | ["len"] => some .length
-  | ["range"] => some (.range none [])
-  | ["range", n] => do some (.range (some (← n.toNat?)) [])
+  | ["range"] => some (.range none [] none)
+  | ["range", n] => do some (.range (some (← n.toNat?)) [] none)
   | ["range2"] => some .range2
   | ["swf", k, v] => do some (.storeWithFunc (← k.toNat?) (← parseVal v))
   | ["lwf", k, d] => do some (.loadWithFunc (← k.toNat?) (← d.toNat?))
@@ -174,7 +174,7 @@ def upcomingRet (t : Nat) (want : List String) : Option String :=
     sweep the next key is chosen step by step (see `refill`) -/
 def oracles (op : Op) (t : Nat) (r : RState) (keys : List Nat) : List (List Nat) :=
   match op with
-  | .range _ _ =>
+  | .range _ _ _ =>
     match (upcomingRet t r.want).bind (fun s => (dropPrefix s "w=").bind parseList) with
     | some l => [l.map (·.1)]
     | none => [[]]
